@@ -131,6 +131,11 @@ def jobs(tier):
                            params=dict(variety=var, k=k, props=P), cost=4 ** k))
         js.append(dict(name=f'H4a:edfa:{var}:k2:sym_pmax+oob+in_voa', module='harness.elems', fn='h_edfa',
                        params=dict(variety=var, k=2, props=P, sym_pmax=True, oob=True, sym_invoa=True), cost=40))
+    for var in ('std_medium_gain', 'high_detail_model_example', 'std_fixed_gain'):
+        js.append(dict(name=f'H4a:edfa:{var}:k2:symbolic_band_edge', module='harness.elems', fn='h_edfa',
+                       params=dict(variety=var, k=2, props=P, sym_band=True), cost=30))
+        js.append(dict(name=f'H4a:edfa:{var}:k2:after_another_comb', module='harness.elems', fn='h_edfa',
+                       params=dict(variety=var, k=2, props=P, history=True), cost=30))
     for var in ('std_high_gain', 'std_medium_gain', 'std_low_gain', 'high_power', 'operator_model_example'):
         js.append(dict(name=f'H4b:nf_model:{var}', fn='h_nf_model_library', params=dict(variety=var)))
     for var in ('medium+low_gain', 'medium+high_power', 'hybrid_4pumps_lowgain'):
